@@ -10,6 +10,7 @@ import (
 	"context"
 	"errors"
 	"fmt"
+	"math/big"
 	"math/rand"
 	"sort"
 	"strings"
@@ -98,15 +99,16 @@ type keyset struct {
 }
 
 type env struct {
-	t     *testing.T
-	ctx   context.Context
-	bmock beaconmock.Mock
-	spe   uint64
-	gens  map[string]dutygen.Gen
-	names []string
-	keys  map[[3]int]keyset // (v, n, t)
-	other tbls.PrivateKey
-	r     *rand.Rand
+	t        *testing.T
+	ctx      context.Context
+	bmock    beaconmock.Mock
+	spe      uint64
+	gens     map[string]dutygen.Gen
+	names    []string
+	keys     map[[3]int]keyset // (v, n, t)
+	other    tbls.PrivateKey
+	otherNeg tbls.PrivateKey
+	r        *rand.Rand
 	// long-lived aggregator of the current sequence; its subscribers and verifier dispatch to the hooks
 	seqID     int
 	seqT      int
@@ -147,6 +149,18 @@ func newEnv(t *testing.T) *env {
 	e.other, err = tbls.GenerateInsecureKey(t, e.r)
 	if err != nil {
 		t.Fatal(err)
+	}
+	// the negated foreign key: signatures under it are the inverses of signatures under e.other
+	order, _ := new(big.Int).SetString("73eda753299d7d483339d80809a1d80553bda402fffe5bfeffffffff00000001", 16)
+	neg := new(big.Int).Sub(order, new(big.Int).SetBytes(e.other[:]))
+	neg.FillBytes(e.otherNeg[:])
+	d1, err1 := tbls.Sign(e.other, []byte("probe"))
+	d2, err2 := tbls.Sign(e.otherNeg, []byte("probe"))
+	if err1 != nil || err2 != nil {
+		t.Fatal(err1, err2)
+	}
+	if sum, err := tbls.Aggregate([]tbls.Signature{d1, d2}); err != nil || sum[0] != 0xc0 {
+		t.Fatalf("negated key does not cancel: %v %x", err, sum[:4])
 	}
 
 	return e
@@ -338,6 +352,22 @@ func (e *env) run(spec CaseSpec) Case {
 			case "otherkey":
 				root := getContent(ps.SignOver).roots[0]
 				s, err := tbls.Sign(e.other, root[:])
+				if err != nil {
+					e.t.Fatal(err)
+				}
+				sig = s[:]
+				term = fmt.Sprintf("SOther %d", uniq)
+			case "plusD", "minusD": // the genuine partial plus / minus a fixed foreign point D over the same root
+				root := getContent(ps.SignOver).roots[0]
+				key := e.other
+				if ps.SigKind == "minusD" {
+					key = e.otherNeg
+				}
+				d, err := tbls.Sign(key, root[:])
+				if err != nil {
+					e.t.Fatal(err)
+				}
+				s, err := tbls.Aggregate([]tbls.Signature{genuine(), d})
 				if err != nil {
 					e.t.Fatal(err)
 				}
@@ -776,6 +806,57 @@ func (e *env) genCases(total int) []CaseSpec {
 			}
 		}
 	}
+	// shared signing root: 2..3 validators sign the SAME object (same attestation data, same sync block
+	// root, same epoch ...) with the SAME share indices, and partials are exchanged across validators so
+	// that the errors cancel in any sum over validators; each validator's own aggregate is invalid.
+	// (+D and -D are never given to the SAME validator: Lagrange coefficients of two share indices can
+	// coincide, e.g. for indices symmetric in 1..n, and then the validator's own aggregate is valid --
+	// an algebraic coincidence the symbolic terms do not express.)
+	for _, name := range e.names {
+		for _, variant := range []string{"swap_same_index", "swap_two_indices", "swap_different_indices", "one_sided", "cyclic3", "cyclic3_two_indices", "delta_pair", "delta_pair_in_three"} {
+			n, th := nt()
+			nv := 2
+			if strings.Contains(variant, "3") || strings.Contains(variant, "three") {
+				nv = 3
+			}
+			idxs := subset(r, n, th+r.Intn(n-th+1))
+			c := CaseSpec{Kind: "shared-root", Type: name, T: th, N: n, Corrupt: []string{variant}}
+			for v := 0; v < nv; v++ {
+				c.Vals = append(c.Vals, ValSpec{V: v, Parts: validParts(v, idxs)})
+			}
+			k := r.Intn(len(idxs))
+			k2 := (k + 1) % len(idxs)
+			P := func(v, i int) *PartSpec { return &c.Vals[v].Parts[i] }
+			switch variant {
+			case "swap_same_index":
+				P(0, k).SignerVal, P(1, k).SignerVal = 1, 0
+			case "swap_two_indices":
+				if k2 == k {
+					continue
+				}
+				P(0, k).SignerVal, P(1, k).SignerVal = 1, 0
+				P(0, k2).SignerVal, P(1, k2).SignerVal = 1, 0
+			case "swap_different_indices":
+				if k2 == k {
+					continue
+				}
+				P(0, k).SignerVal, P(1, k2).SignerVal = 1, 0
+			case "one_sided":
+				P(0, k).SignerVal = 1
+			case "cyclic3":
+				P(0, k).SignerVal, P(1, k).SignerVal, P(2, k).SignerVal = 1, 2, 0
+			case "cyclic3_two_indices":
+				if k2 == k {
+					continue
+				}
+				P(0, k).SignerVal, P(1, k).SignerVal, P(2, k).SignerVal = 1, 2, 0
+				P(0, k2).SignerVal, P(1, k2).SignerVal, P(2, k2).SignerVal = 2, 0, 1
+			case "delta_pair", "delta_pair_in_three":
+				P(0, k).SigKind, P(nv-1, k).SigKind = "plusD", "minusD"
+			}
+			add(c)
+		}
+	}
 	// long-lived aggregator + verifier over a sequence of calls of one duty type at epochs in
 	// different forks of the beacon mock (Electra at 2048, Fulu at 50688), both orders: objects signed
 	// for their own epoch's domain (must publish) and with the other fork's domain (must fail)
@@ -854,6 +935,10 @@ func TestGen(t *testing.T) {
 	var replay struct {
 		CaseSpec
 		SeqSpecs []CaseSpec `json:"seq_specs"` // the whole sequence up to and including the failing call
+		// the calls that preceded the case in the run that found it are re-run first (same seed and
+		// size): package-level state of core/sigagg, if any, is then the same
+		HistSeed int64 `json:"hist_seed"`
+		HistN    int   `json:"hist_n"`
 	}
 	if ok, err := hx.ReadReplay(&replay); ok {
 		if err != nil {
@@ -864,6 +949,15 @@ func TestGen(t *testing.T) {
 			specs = []CaseSpec{replay.CaseSpec}
 		}
 		var cs []Case
+		if replay.HistN > 0 {
+			e.r = rand.New(rand.NewSource(replay.HistSeed)) //nolint:gosec
+			for _, s := range e.genCases(replay.HistN) {
+				if s.ID >= specs[0].ID {
+					break
+				}
+				cs = append(cs, e.run(s)) // judged as well: state that leaks between calls may surface one call earlier or later
+			}
+		}
 		for _, s := range specs {
 			cs = append(cs, e.run(s))
 		}
